@@ -13,9 +13,10 @@ import (
 )
 
 // JSON value encoding shared with the specification (Appendix A of DESIGN.md):
-//   {k:"null"} {k:"int",v:"<decimal>"} {k:"float",f:<number>|"text"} {k:"bool",v} {k:"str",s:"..."}
-//   {k:"list",es:[..]} {k:"obj",fs:{key:v}} {k:"anyobj",fs:{..}} {k:"opt"} / {k:"opt",v:..}
-//   {k:"range",l,r,incl}
+//
+//	{k:"null"} {k:"int",v:"<decimal>"} {k:"float",f:<number>|"text"} {k:"bool",v} {k:"str",s:"..."}
+//	{k:"list",es:[..]} {k:"obj",fs:{key:v}} {k:"anyobj",fs:{..}} {k:"opt"} / {k:"opt",v:..}
+//	{k:"range",l,r,incl}
 type JV struct {
 	K    string         `json:"k"`
 	V    any            `json:"v,omitempty"`
